@@ -117,10 +117,11 @@ pub struct WriteSpec {
     #[serde(default)]
     pub cancel_chunk: Option<u8>,
     /// streamed writes only: before the commit every file in `<cache>/tmp` is back-dated by
-    /// this many hours (a writer that has been open for a long time) and another writer stores
+    /// this many hours — negative: dated that far in the future (a clock that was stepped back,
+    /// a restored cache) — and another writer stores
     /// the pool's next value by address on the same cache; the commit must succeed as usual
     #[serde(default)]
-    pub aged_hours: u32,
+    pub aged_hours: i32,
     /// options are set twice on the builder, a decoy value first (the last call wins)
     #[serde(default)]
     pub decoy_opts: bool,
@@ -175,6 +176,10 @@ pub enum Dest {
     /// an absent path next to files named `<dest>.tmp`, `<dest>.partial`, `<dest>~` and
     /// `.<dest>.swp`, which belong to somebody else and must stay as they are
     WithSiblings,
+    /// an existing path that is a hard link of the entry's own content file (the user hard-linked
+    /// the entry out earlier and now asks for it at the same path again); like `Absent` when the
+    /// content is not a regular file
+    LinkOfContent,
 }
 
 /// Where a writer is abandoned (C14).
@@ -190,6 +195,9 @@ pub enum AbandonAt {
     /// `select!` would do that), then `commit()` is called. What the commit returns is not
     /// judged (the cancelled chunk may or may not count) — it must return.
     CancelThenCommit(usize),
+    /// async only: all chunks, then the stream is shut down (`close()` / `shutdown()`), then
+    /// the writer is dropped without `commit()` (sync: like `AfterFlush`)
+    AfterShutdown,
 }
 
 /// Damage applied to a content file from outside (harness-side).
